@@ -87,12 +87,14 @@ def check_case(a):
                 return [('mvarray:nested-lossless', f'mvarray{tuple(groups)} = {mva.tolist()}')]
         elif kind == 'pop':
             arr = np.array(a['data'], dtype=np.uint8).reshape(a['shape'])
+            if a.get('signed'):
+                arr = arr.view(np.int8)          # the same packed bytes seen as int8: the one bits are those of the two's complement representation
             if a.get('strided'):
                 arr = np.repeat(arr, 2, axis=-1)[..., ::2]
             pc = kyupy.popcount(arr)
-            want = sum(bin(int(x)).count('1') for x in arr.ravel())
+            want = sum(bin(int(x) & 0xff).count('1') for x in arr.ravel())
             if int(pc) != want:
-                return [('popcount', f'popcount of a uint8 array of shape {arr.shape} = {int(pc)}, it has {want} one bits')]
+                return [('popcount', f'popcount of a {arr.dtype} array of shape {arr.shape} = {int(pc)}, it has {want} one bits')]
         elif kind == 'alias':
             for code, vals in ALIASES.items():
                 for v in vals:
@@ -175,6 +177,7 @@ def part(tier, seed):
         for data in ([255] * nel, [0x80] * nel, [rng.randrange(256) for _ in range(nel)], [rng.choice((0x80, 0xff, 0x7f, 1)) for _ in range(nel)]):
             cases.append({'kind': 'pop', 'shape': list(sh), 'data': data})
             cases.append({'kind': 'pop', 'shape': list(sh), 'data': data, 'strided': True})
+            cases.append({'kind': 'pop', 'shape': list(sh), 'data': data, 'signed': True})
     for dt in ('uint8', 'int8', 'uint16', 'int16', 'uint32', 'int32', 'uint64', 'int64', 'bool', '>u2', '>i2', '>u4', '>i4', '>u8', '>i8', '<u2', '<i8'):
         for sh in ((3,), (2, 3), (1, 2, 2)):
             info = np.iinfo(dt) if dt != 'bool' else None
